@@ -482,8 +482,11 @@ def post_steps(draw, db, hist_tags):
         post.append({"op": "cur", "n": 1})
     for _ in range(draw(st.integers(0, 2))):
         post.append(setter_step(draw))
-    related = sorted({p for t in hist_tags for p in T.RELATED.get(t, [])})
-    n = draw(st.integers(1, 5))
+    # one probe per kind of thing the history changed (in a drawn order), then free choices: every history tag meets a probe
+    # that looks at its member group
+    rel_tags = [t for t in hist_tags if t in T.RELATED]
+    tag_order = list(draw(st.permutations(rel_tags))) if rel_tags else []
+    n = draw(st.integers(1, 6))
     chosen = []
     for i in range(n):
         k = draw(st.integers(0, 9))
@@ -494,8 +497,8 @@ def post_steps(draw, db, hist_tags):
         if k == 1:
             post.append({"op": "runacc"})
             continue
-        if related and (k <= 5 or not chosen):
-            p = draw(st.sampled_from(related))
+        if tag_order and (k <= 7 or not chosen):
+            p = draw(st.sampled_from(T.RELATED[tag_order.pop(0)]))
         else:
             p = draw(st.sampled_from(T.PROBE_NAMES))
         if p in chosen or (p == "inverse" and db in NO_ALK):
